@@ -238,7 +238,8 @@ class NDNApp:
                              validator: Validator | None = None,
                              need_raw_packet: bool = False
                              ) -> Coroutine[Any, None, tuple[FormalName, MetaInfo, BinaryStr | None]]:
-        final_name = Name.normalize(final_name)
+        # The pending Interest keeps its own copy of the name: the caller may reuse its buffers while it waits
+        final_name = [bytes(c) for c in Name.normalize(final_name)]
         future = aio.get_running_loop().create_future()
         if Component.get_type(final_name[-1]) == Component.TYPE_IMPLICIT_SHA256:
             node_name = final_name[:-1]
